@@ -132,8 +132,10 @@ def weekOfMonth (ref : DateTime) (cardinal : Int) (monthStr : Option Nat) (swift
 /-! ### `_parse_week_of_year` ("first week of 2020", "last week of this year") -/
 
 /-- `year` = `int(year_str)` when present, else `reference.year + swift` with `swift = get_swift_year(order_str)`
-(no result for `swift < -1`). -/
-def weekOfYear (ref : DateTime) (isLast : Bool) (cardinal : Int) (yearStr : Option Int) (swift : Int) : Res :=
+(no result for `swift < -1`). `fixed = false` is the code BEFORE `fix: numbered week of a year carries the target week's
+number` (the TIMEX of a numbered week was written with the ISO week number of January 1st); kept as the labelled pre-fix
+variant `weekOfYearPreFix` (regression witness `week_of_year_timex_prefix_regression`). -/
+def weekOfYearG (fixed : Bool) (ref : DateTime) (isLast : Bool) (cardinal : Int) (yearStr : Option Int) (swift : Int) : Res :=
   let yr : Option Int := match yearStr with
     | some y => some y
     | none => if swift < -1 then none else some ((ref.date.y : Int) + swift)
@@ -154,9 +156,13 @@ def weekOfYear (ref : DateTime) (isLast : Bool) (cardinal : Int) (yearStr : Opti
           let wn := (isoCalendar firstDay.date).2.1
           let m ← (if wn != 1 then (addDelta firstDay 0 0 7).bind fun x => this x 1 else some m0)
           let t ← addDelta m 0 0 (7 * (cardinal - 1))
-          pure (t, wn))
+          pure (t, if fixed then (isoCalendar t.date).2.1 else wn))
       let e ← addDelta monday 0 0 7
       pure (.ok (pad4 year.toNat ++ [45, 87] ++ pad2 weekNum) monday e monday e)
+
+/-- the current code -/
+def weekOfYear := weekOfYearG true
+def weekOfYearPreFix := weekOfYearG false
 
 /-! ### `__parse_which_week` ("week 12") -/
 
